@@ -141,6 +141,7 @@ class Report:
         self.paths = 0
         self.solver_calls = 0
         self.asserts = 0
+        self.solver_s = 0.0
         self.steps = 0
         self.infeasible = 0
         self.items = 0
@@ -168,6 +169,7 @@ class Report:
         self.paths += r.get('paths', 0)
         self.solver_calls += r.get('solver_calls', 0)
         self.asserts += r.get('asserts', 0)
+        self.solver_s += r.get('solver_s', 0.0)
         self.steps += r.get('steps', 0)
         self.infeasible += r.get('infeasible', 0)
         for c in r.get('cells', []):
@@ -205,6 +207,7 @@ class Report:
             'transitions': self.asserts + self.solver_calls,
             'assertions_discharged': self.asserts,
             'solver_queries': self.solver_calls,
+            'solver_time_cpu_s': round(self.solver_s, 2),
             'traces_validated_against_impl': self.validated,
             'samples': self.samples[:6] or ['(none)'],
             'rule': rule,
